@@ -72,7 +72,8 @@ def w1(ctx):
         if wid in helpers:
             ctx.ok("index-helper:" + C.fkey(crate.bodies[wid]), "%s updates an index on behalf of the index writers %s only" % (C.short(wid), sorted(C.short(x) for x in callers[wid])), where_of(crate.bodies[wid]))
             continue
-        b = mir.inline_view(crate, crate.bodies[wid], depth=2, policy=helpers) if helpers else crate.bodies[wid]
+        # (with no index helper the default policy still applies: a new private accessor such as `class_mut(id)` is looked through)
+        b = mir.inline_view(crate, crate.bodies[wid], depth=2, policy=helpers) if helpers else mir.inline_view(crate, crate.bodies[wid], depth=2)
         missing = [n for n, s, f_ in (("hashcons", hw, "hashcons"), ("EClass.nodes", nw, "nodes"), ("EClass.usages", uw, "usages")) if wid not in s and not (b is not crate.bodies[wid] and writes(b, f_))]
         ctx.check(not missing, "writes-all-three:" + C.fkey(b), "%s writes hashcons, nodes and usages" % C.short(wid),
                   "%s writes some of the three e-node indexes but not %s — the indexes the consistency check compares can drift apart" % (C.short(wid), missing), where_of(b))
